@@ -306,9 +306,26 @@ class GNFA(fa.FA):
         """
         self._validate_initial_state()
         self._validate_final_state()
+        if self.initial_state == self.final_state:
+            raise exceptions.InvalidStateError(
+                "final state {} must be different from the initial state".format(
+                    self.final_state
+                )
+            )
+        for state in self.states:
+            if state != self.final_state and state not in self.transitions:
+                raise exceptions.MissingStateError(
+                    "transition start state {} is missing".format(state)
+                )
         for start_state, paths in self.transitions.items():
             self._validate_transition_invalid_symbols(start_state, paths)
             self._validate_transition_end_states(start_state, paths)
+            if paths.get(self.initial_state) is not None:
+                raise exceptions.InvalidStateError(
+                    "state {} has a transition into the initial state".format(
+                        start_state
+                    )
+                )
         self._validate_initial_state_transitions()
 
     @staticmethod
